@@ -237,12 +237,18 @@ impl World {
             if fl.msg.ops().is_some() {
                 self.nontrivial.insert("C20".into());
             }
-            let expected = if reset_members.is_empty() { 0 } else { 1 };
+            // what counts as a reset comes from the statement (message + state before), not from
+            // the watermark having moved
+            let stated = fl.msg.ops().and_then(|ops| stated_resets(ops, &before, &after)).map(|v| v.len()).unwrap_or(reset_members.len());
+            if stated != reset_members.len() {
+                self.stats.inc("probe_watermark_moved_without_stated_reset");
+            }
+            let expected = if stated == 0 { 0 } else { 1 };
             if cb_after - cb_before != expected {
                 return Err(self.viol(
                     "C20",
                     "C20.count",
-                    format!("n{to}: {} callback(s) for a {} that reset {} copies", cb_after - cb_before, fl.msg.kind(), reset_members.len()),
+                    format!("n{to}: {} callback(s) for a {} that reset {} copies", cb_after - cb_before, fl.msg.kind(), stated),
                 ));
             }
         }
